@@ -88,7 +88,7 @@ def native_replay(module, function, cex, tier, work, extra_env=None):
 def save_replay(pid, ob, cex, rep, tier):
     d = os.path.join(os.environ.get('VERIF_REPLAY_DIR', os.path.join(HERE, 'replays')), pid)
     os.makedirs(d, exist_ok=True)
-    blob = json.dumps([ob['module'], ob['function'], cex], sort_keys=True)
+    blob = json.dumps([ob['module'], ob['function'], cex, ob.get('env', {})], sort_keys=True)     # parts of one obligation differ in env only
     digest = hashlib.sha1(blob.encode()).hexdigest()[:10]
     path = os.path.join(d, '%s-%s.json' % (ob['function'], digest))
     with open(path, 'w') as f:
